@@ -25,6 +25,8 @@ func (c Comment) String() string {
 		return "# " + c.Text
 	case "//":
 		return "// " + c.Text
+	case "/**":
+		return "/** " + c.Text + " **/"
 	}
 	return "/* " + c.Text + " */"
 }
@@ -121,7 +123,7 @@ func Render(toks []gen.Tok, p Plan) string {
 				}
 				sb.WriteString(lead)
 				sb.WriteString(c.String())
-				afterLineComment = c.Style != "/*"
+				afterLineComment = c.Style != "/*" && c.Style != "/**"
 			}
 			tail := " "
 			if afterLineComment || eolPreferred {
@@ -145,7 +147,7 @@ func Canonical(toks []gen.Tok) string { return Render(toks, Plan{Mode: "canonica
 // NewComment builds a comment with a unique serial in its text. The text can never be read as an
 // annotation: it does not start (after trimming " */#") with "@", "FASTLY" or "falco-".
 func NewComment(r *rand.Rand, serial int) Comment {
-	style := []string{"#", "//", "/*"}[r.Intn(3)]
+	style := []string{"#", "//", "/*", "#", "//", "/*", "/**"}[r.Intn(7)]
 	words := []string{"note", "x y", "todo: z", "a=b", "50% off", "quote \"q\"", "brace { }", "semi;colon", "é"}
 	return Comment{Style: style, Text: fmt.Sprintf("c%d %s", serial, words[r.Intn(len(words))])}
 }
